@@ -1043,7 +1043,10 @@ class Interp:
         return self._comp(e, sc, "list")
 
     def e_GeneratorExp(self, e, sc):
-        return self._comp(e, sc, "list")
+        v = self._comp(e, sc, "list")
+        if isinstance(v, ListLit):
+            v.pyname, v.pybases = "generator", ()  # evaluated eagerly, but it is an iterator: next() takes from it, an empty one raises StopIteration
+        return v
 
     def e_SetComp(self, e, sc):
         v = self._comp(e, sc, "list")
@@ -1578,6 +1581,15 @@ class Interp:
                 bound = sc.lookup(name) if isinstance(f, ast.Name) else None
                 if isinstance(bound, Fn) and bound.kind == "py":
                     return self.eval(exc, sc)
+                if isinstance(f, ast.Name):
+                    try:
+                        fv = self.lookup(f.id, sc)
+                    except (ShapeError, _Raise):
+                        fv = None
+                    if isinstance(fv, Fn) and fv.kind in ("repo", "lambda", "partial"):
+                        # `raise helper(...)`: the exception object is what the package's helper builds
+                        v = self.eval(exc, sc)
+                        return v if isinstance(v, Obj) else None
                 args = [self.eval(a, sc) for a in exc.args if not isinstance(a, ast.Starred)]
                 return Obj("Exception", OrderedDict(args=TupS(args), classes=Const(tuple(classes) if classes else None)))
             v = self.eval(exc, sc)
